@@ -39,7 +39,7 @@ def expand(segs):
 
 
 def to_text(esegs, eol='\n'):
-    return ''.join(sid + '*' + '*'.join(e) + '~' + eol if e else sid + '~' + eol for sid, e in esegs)
+    return ''.join(sid + '*' + '*'.join('' if x is None else x for x in e) + '~' + eol if e else sid + '~' + eol for sid, e in esegs)
 
 
 def run_reader(text, lx):
@@ -325,7 +325,14 @@ def strategies(tier):
                     if si > 0 and draw(st.integers(0, 5)) == 0:
                         sctl = '0001'
                         pert.add('dup-st-id')
-                    segs.append(['ST', '837', sctl])
+                    st_seg = ['ST', '837', sctl]
+                    no_ctl = draw(st.integers(0, 11)) == 0
+                    if no_ctl:
+                        # no control number: left empty in front of a later element, or not there at all - the same value
+                        st_seg = draw(st.sampled_from([['ST', '837', '', 'X1'], ['ST', '837']]))
+                        sctl = ''
+                        pert.add('control-number-empty-or-absent')
+                    segs.append(st_seg)
                     b = body(draw, pert, lx)
                     segs += b
                     cnt = str(len(b) + 2)
@@ -342,7 +349,10 @@ def strategies(tier):
                         sid2 = '9999'
                         pert.add('SE01-bad')
                         pert.add('SE02-bad')
-                    segs.append(['SE', cnt, sid2])
+                    if no_ctl and sid2 == '':
+                        segs.append(draw(st.sampled_from([['SE', cnt], ['SE', cnt, '']])))
+                    else:
+                        segs.append(['SE', cnt, sid2])
                 cnt = str(n_st)
                 gid2 = gctl
                 p = draw(st.integers(0, 9))
